@@ -1,2 +1,25 @@
-(** C06 — OER encodings are byte-exact X.696.  Statements only. *)
-From Asn1V Require Import Base.Prelude Syntax.Asn1 Oer.OerPrim Oer.OerImpl Oer.X696.
+(** C06 — OER encodings are byte-exact X.696.  Statements only; the model is
+    Oer/OerImpl.v, the specification Oer/X696.v, proofs in Oer/*Proofs.v. *)
+From Asn1V Require Import Base.Prelude Syntax.Asn1.
+From Asn1V Require Import Oer.OerPrim Oer.OerImpl Oer.OerScope Oer.X696 Oer.OerPrimProofs Oer.OerProofs.
+
+(** Decoder accepts exactly the encoder's octets: for every type/value of the
+    region [oer_ok] (Oer/OerScope.v), every fuel and every tail, decoding the
+    encoding followed by the tail returns the normalised value and consumes
+    exactly the encoding. *)
+Theorem C06_oer_roundtrip :
+  forall numeric fuel e t v bs,
+    oer_ok numeric fuel e t v = true -> oer_encode numeric fuel e t v = Ok bs ->
+    forall tail, oer_decode numeric fuel e t (bs ++ tail) = Ok (oer_norm fuel e t v, length bs).
+Proof. exact oer_roundtrip. Qed.
+Print Assumptions C06_oer_roundtrip.
+
+(** ... and nothing shorter: every strict prefix of an encoding is rejected
+    with the library's decode error (never a foreign exception, never a value). *)
+Theorem C06_oer_truncation :
+  forall numeric fuel e t v bs,
+    oer_ok numeric fuel e t v = true -> oer_encode numeric fuel e t v = Ok bs ->
+    forall p, strict_prefix p bs ->
+    exists x, oer_decode numeric fuel e t p = Err x /\ is_decode_error x = true.
+Proof. exact oer_truncation. Qed.
+Print Assumptions C06_oer_truncation.
